@@ -1,6 +1,6 @@
 (** C13 correspondence entries. *)
 From Coq Require Import String.
-From BV Require Import Base.Prelude Base.Codec gen.C13EscapeTables Quote.Quote Quote.Reader.
+From BV Require Import Base.Prelude Base.Codec gen.C13EscapeTables Quote.Quote Quote.Reader Quote.AnsiC.
 
 (** args: <mode> <s>; mode = two letters: f|n (force / if needed) then s|d|b.
     Uses the regenerated flag [positional_escaping]. *)
@@ -26,4 +26,16 @@ Definition entry_c13_read (a : list str) : list str :=
       | None => [lit "N"]
       end
   | _ => [lit "?args"]
+  end.
+
+(** args: <text>.  [expand_backslash_escapes] in ANSI-C mode with the regenerated digit count:
+    O <bytes as lowercase hex> | E (integer parse error) | U (outside the modelled escapes) *)
+Definition hexdigit (n : N) : N := if N.ltb n 10 then (48 + n)%N else (87 + n)%N.
+Definition hex_of_bytes (b : list N) : str := flat_map (fun x => [hexdigit (x / 16); hexdigit (x mod 16)])%N b.
+Definition entry_c13_decode (a : list str) : list str :=
+  let s := match a with s :: _ => s | [] => [] end in
+  match decode zero_octal_digits_ansic s with
+  | DOk b => [lit "O"; hex_of_bytes b]
+  | DErr => [lit "E"]
+  | DUnsupported => [lit "U"]
   end.
